@@ -22,8 +22,9 @@ def q(rng, lo, hi, nonzero=True):
 
 
 class SolvGen:
-    def __init__(self, rng, kind=None, ext=None, with_attrs=False):
+    def __init__(self, rng, kind=None, ext=None, with_attrs=False, with_array=False):
         self.r, self.ext, self.with_attrs = rng, ext, with_attrs
+        self.with_array = with_array     # two unknowns are the elements of an array xv[2] (C16, with expand_vectors)
         self.kind = kind or rng.choice(["affine", "affine", "triangular"])
         self.tags = {"system:" + self.kind}
         self.decls = []            # (prefix, type, name, attrs dict, value expr)
@@ -102,6 +103,16 @@ class SolvGen:
             self.decl(a, attrs=self.rand_attrs())
             self.unknowns.append(a)
             self.val[a] = q(r, -3, 3)
+        if self.with_array:
+            # declared as one array (attributes, if any, apply to every element; never a start value)
+            at = self.rand_attrs()
+            at.pop("start", None)
+            self.decl("xv[2]", attrs=at)
+            for nm in ("xv[1]", "xv[2]"):
+                self.alg.append(nm)
+                self.unknowns.append(nm)
+                self.val[nm] = q(r, -3, 3)
+            self.tags.add("array-elements-as-unknowns")
         core_unknowns = list(self.unknowns)
         if self.affine:
             self.affine_core(core_unknowns)
@@ -116,8 +127,10 @@ class SolvGen:
                 self.add_alias()
             elif k < 0.65:
                 self.add_constant_assignment()
-            elif k < 0.8:
+            elif k < 0.72:
                 self.add_eliminable()
+            elif k < 0.8:
+                self.add_anchored_chain()
             elif k < 0.9:
                 self.add_late_alias()
             else:
@@ -206,6 +219,9 @@ class SolvGen:
         cands = self.alg + self.states + self.inputs + [a for a, _, _ in self.alias_info]
         if r.random() < 0.15:
             cands = [u for u in self.unknowns if u.startswith("der(")] or cands
+        elif r.random() < 0.15 and (self.params or self.consts):
+            # an alias chain anchored at a parameter or a constant (which must never be eliminated)
+            cands = self.params + self.consts
         tgt = r.choice(cands)
         name = "b%d" % (len(self.alias_info) + 1)
         sign = r.choice([1, 1, -1])
@@ -230,8 +246,32 @@ class SolvGen:
             self.tags.add("alias:of-state")
         elif tgt in self.inputs:
             self.tags.add("alias:of-input")
+        elif tgt in self.params:
+            self.tags.add("alias:of-parameter")
+        elif tgt in self.consts:
+            self.tags.add("alias:of-constant")
         elif tgt.startswith("b"):
             self.tags.add("alias:chain")
+
+    def add_anchored_chain(self):
+        """a = <anchor>; a = b (or b = a): a chain of two algebraic aliases hanging on something that must never be
+        eliminated (parameter, constant, input, state)."""
+        r = self.r
+        anchor = r.choice(self.params + self.consts + self.inputs + self.states)
+        n = sum(1 for d in self.decls if d[2].startswith("ca")) + 1
+        a, b = "ca%d" % n, "cb%d" % n
+        for nm in (a, b):
+            self.decl(nm, attrs=self.rand_attrs_alias())
+            self.val[nm] = self.val[anchor]
+            self.unknowns.append(nm)
+            self.alg.append(nm)
+        self.eqs.append(("eq", var(a), var(anchor)) if r.random() < 0.7 else ("eq", var(anchor), var(a)))
+        self.eqs.append(("eq", var(a), var(b)) if r.random() < 0.6 else ("eq", var(b), var(a)))
+        self.alias_info += [(a, anchor, 1), (b, a, 1)]
+        kind = ("parameter" if anchor in self.params else "constant" if anchor in self.consts else
+                "input" if anchor in self.inputs else "state")
+        self.tags.add("alias:anchored-chain:" + kind)
+        self.want_aliases = True
 
     def add_late_alias(self):
         """an alias that only becomes visible in a later simplification pass: b = a; k = b - a (so k = 0 once b is
@@ -242,7 +282,7 @@ class SolvGen:
         b, k, c = "lb%d" % n, "lk%d" % n, "lc%d" % n
         sign = r.choice([-1, -1, 1])
         for nm, v in ((b, self.val[a]), (k, 0.0), (c, sign * self.val[a])):
-            self.decl(nm)
+            self.decl(nm, attrs=self.rand_attrs_alias() if nm != k else None)
             self.val[nm] = v
             self.unknowns.append(nm)
         self.eqs.append(("eq", var(b), var(a)))
@@ -277,10 +317,18 @@ class SolvGen:
             self.eqs.append(("eq", ("bin", "+", var(name), num(-v) if v <= 0 else ("neg", num(v))), num(0)))
         self.tags.add("constant-assignment:" + form)
 
-    def add_eliminable(self):
+    def add_eliminable(self, depth=0, through=None):
         r = self.r
         name = "_e%d" % (sum(1 for d in self.decls if d[2].startswith("_e")) + 1)
         src = r.choice(self.alg + self.states)
+        earlier = [d[2] for d in self.decls if d[2].startswith("_e")]
+        if through is not None:
+            src = through
+            self.tags.add("eliminable-variable:chain-of-%d" % (depth + 1))
+        elif earlier and r.random() < 0.5:
+            # chains of eliminable variables (_e3 defined through _e2 defined through _e1), in any equation order
+            src = r.choice(earlier)
+            self.tags.add("eliminable-variable:chain")
         e = ("bin", "+", ("bin", "*", num(q(r, -2, 2)), var(src)), num(q(r, -2, 2, nonzero=False)))
         self.decl(name)
         self.val[name] = float(mexpr.evaluate(e, self.val))
@@ -288,6 +336,10 @@ class SolvGen:
         self.alg.append(name)
         self.eqs.append(("eq", var(name), e))
         self.tags.add("eliminable-variable")
+        if depth < 2 and r.random() < (0.35 if depth == 0 else 0.8):
+            # continue the chain: the next eliminable variable is defined through this one
+            self.add_eliminable(depth + 1, name)
+            self.want_eliminable = True
 
     def wrap_if(self):
         r = self.r
